@@ -10,7 +10,10 @@ every modulus `m ≥ 2`, every bound `1 ≤ k ≤ m`, both values of `forcereduc
 import GivaroModel.Model.RatRecon
 import GivaroModel.Spec.RatReconSpec
 import GivaroModel.Lemmas.RatReconLemmas
+import GivaroModel.Lemmas.RatReconComplete
 import GivaroModel.Lemmas.RatReconPoly
+import GivaroModel.Lemmas.RatReconPolyFull
+import GivaroModel.Lemmas.RatReconPolyMathlib
 namespace Givaro.Props.C11
 open Givaro.Model.RatRecon Givaro.Spec.RatRecon Givaro.Lemmas.RatRecon
 
@@ -220,5 +223,301 @@ theorem poly_ratrecon_sound_partial {P : Type} [CommRing P] (O : PolyOps P) (L :
 example : (polyRatrecon 7 [3, 1, 4] [2, 0, 0, 1] 1 true).ok = true ∧
     polySoundB 7 [3, 1, 4] [2, 0, 0, 1] 1 true (polyRatrecon 7 [3, 1, 4] [2, 0, 0, 1] 1 true).n
       (polyRatrecon 7 [3, 1, 4] [2, 0, 0, 1] 1 true).d = true := by decide +kernel
+
+/-! ### Completeness and uniqueness for every modulus, residue and bound (MCA Thm 5.26 for the code as written)
+
+`Solution f m k n d`:  n ≡ d·f (mod m), |n| < k, 0 < d, d·k ≤ m (the documented "0 ≤ den ≤ m/k"), gcd(n,d) = 1. -/
+
+theorem solutionB_iff (f m k n d : Int) : solutionB f m k n d = true ↔ Solution f m k n d := by
+  unfold solutionB Solution
+  simp only [Bool.and_eq_true, decide_eq_true_eq, beq_iff_eq]
+  constructor
+  · rintro ⟨⟨⟨⟨h1, h2⟩, h3⟩, h4⟩, h5⟩; exact ⟨Int.dvd_of_emod_eq_zero h1, h2, h3, h4, h5⟩
+  · rintro ⟨h1, h2, h3, h4, h5⟩; exact ⟨⟨⟨⟨Int.emod_eq_zero_of_dvd h1, h2⟩, h3⟩, h4⟩, h5⟩
+
+/-- If a reduced fraction within the documented bounds exists, `ratrecon` reports success (either flag); the answer is
+    that fraction, except possibly when `2·k·d > m`, where the other of the (at most two) candidates may be returned. -/
+theorem ratrecon_complete_general (f m k n d : Int) (fr : Bool) (hm : 2 ≤ m) (hk : 1 ≤ k) (hkm : k ≤ m)
+    (hs : Solution f m k n d) :
+    (ratrecon f m k fr).ok = true ∧ (ratrecon f m k fr = ⟨true, n, d⟩ ∨ m < 2 * k * d) := by
+  obtain ⟨h1, h2, h3, h4, h5⟩ := hs
+  obtain ⟨hl, hx, hd⟩ := exitSt_facts f m k (by omega) hk hkm
+  rw [ratrecon_eq_finish]
+  exact finish_general f _ m k n d fr _ (by omega) hk hkm hd h1 h2 h3 h4 h5 hl hx
+
+example : Solution 145 1009 31 6 7 := (solutionB_iff _ _ _ _ _).mp (by decide)
+
+/-- … hence a reported failure is exact: no reduced fraction within the bounds exists -/
+theorem ratrecon_false_no_solution (f m k : Int) (fr : Bool) (hm : 2 ≤ m) (hk : 1 ≤ k) (hkm : k ≤ m)
+    (hfalse : (ratrecon f m k fr).ok = false) : ∀ n d, ¬ Solution f m k n d := by
+  intro n d hs
+  have := (ratrecon_complete_general f m k n d fr hm hk hkm hs).1
+  rw [hfalse] at this; cases this
+
+example : (ratrecon 75 250 17 true).ok = false := by decide
+
+/-- uniqueness: inside `2·k·d ≤ m` the answer is exactly the reduced fraction, for both values of `forcereduce` -/
+theorem ratrecon_unique (f m k n d : Int) (fr : Bool) (hm : 2 ≤ m) (hk : 1 ≤ k) (hkm : k ≤ m)
+    (hs : Solution f m k n d) (h2 : 2 * k * d ≤ m) : ratrecon f m k fr = ⟨true, n, d⟩ := by
+  rcases (ratrecon_complete_general f m k n d fr hm hk hkm hs).2 with h | h
+  · exact h
+  · omega
+
+/-- Wang's uniqueness lemma (independent of the code): two reduced fractions congruent to `f` modulo `m` with
+    `|num| ≤ N`, `0 < den ≤ D` and `2·N·D < m` are equal -/
+theorem wang_uniqueness (f m N D n1 d1 n2 d2 : Int) (h1 : m ∣ (n1 - d1 * f)) (h2 : m ∣ (n2 - d2 * f))
+    (hn1 : -N ≤ n1 ∧ n1 ≤ N) (hn2 : -N ≤ n2 ∧ n2 ≤ N) (hd1 : 0 < d1 ∧ d1 ≤ D) (hd2 : 0 < d2 ∧ d2 ≤ D)
+    (hND : 2 * N * D < m) (hg1 : Int.gcd n1 d1 = 1) (hg2 : Int.gcd n2 d2 = 1) : n1 = n2 ∧ d1 = d2 :=
+  wang_unique f m N D n1 d1 n2 d2 h1 h2 hn1 hn2 hd1 hd2 hND hg1 hg2
+
+/-- `forcereduce = false`: the call always succeeds and returns the first candidate, whose denominator obeys the
+    documented bound `0 < den ≤ m/k` (soundness of the pair is `ratrecon_sound`) -/
+theorem ratrecon_noreduce_total (f m k : Int) (hm : 2 ≤ m) (hk : 1 ≤ k) (hkm : k ≤ m) :
+    (ratrecon f m k false).ok = true ∧ 0 < (ratrecon f m k false).den ∧ (ratrecon f m k false).den * k ≤ m := by
+  obtain ⟨hl, hx, _⟩ := exitSt_facts f m k (by omega) hk hkm
+  rw [ratrecon_eq_finish, finish_noreduce]
+  exact ⟨rfl, cand1_bound _ m k _ hl hx hkm⟩
+
+/-- with `forcereduce = true`, a success whose denominator breaks `den·k ≤ m` can only be the second candidate: the
+    code prints a diagnostic but still returns `true`; the property's soundness clauses do not bound `den` -/
+example : (ratrecon 3 8 3 true) = ⟨true, 1, 3⟩ ∧ ¬ ((3 : Int) * 3 ≤ 8) := by decide
+
+/-! ### the wrappers: residue normalisation, widening (`recurs`), default bound `⌊√m⌋`, numerator/denominator bounds -/
+
+theorem solution_congr (f x m k n d : Int) (hx : m ∣ (x - f)) (h : Solution f m k n d) : Solution x m k n d := by
+  obtain ⟨⟨c, hc⟩, h2, h3, h4, h5⟩ := h
+  obtain ⟨e, he⟩ := hx
+  refine ⟨⟨c - d * e, ?_⟩, h2, h3, h4, h5⟩
+  have : x = f + m * e := by omega
+  rw [this]
+  have : n - d * (f + m * e) = (n - d * f) - m * (d * e) := by ring
+  rw [this, hc]; ring
+
+/-- 7-argument `RationalReconstruction`, either value of `recursive`: same completeness for the un-normalised residue -/
+theorem rationalReconstruction_complete (f m k n d : Int) (fr rc : Bool) (hm : 2 ≤ m) (hk : 1 ≤ k) (hkm : k ≤ m)
+    (hs : Solution f m k n d) :
+    (rationalReconstruction f m k fr rc).ok = true ∧
+      (rationalReconstruction f m k fr rc = ⟨true, n, d⟩ ∨ m < 2 * k * d) := by
+  obtain ⟨x0, xm, xd⟩ := normResidue_facts f m (by omega)
+  unfold rationalReconstruction
+  simp only []
+  split
+  · rename_i hx0
+    -- m ∣ f: the only reduced solution is 0/1
+    obtain ⟨⟨c, hc⟩, h2, h3, h4, h5⟩ := hs
+    rw [hx0] at xd
+    obtain ⟨e, he⟩ := xd
+    have hn0 : n = 0 := by
+      have hdvd : m ∣ n := ⟨c - d * e, by
+        have : f = -(m * e) := by omega
+        have h' : n = m * c + d * f := by omega
+        rw [h', this]; ring⟩
+      exact Int.eq_zero_of_abs_lt_dvd hdvd (abs_lt.mpr ⟨by omega, by omega⟩)
+    have hd1 : d = 1 := by
+      rw [hn0, Int.gcd_zero_left] at h5
+      omega
+    rw [hn0, hd1]
+    exact ⟨rfl, Or.inl rfl⟩
+  · have hs' := solution_congr f _ m k n d xd hs
+    obtain ⟨g1, g2⟩ := ratrecon_complete_general _ m k n d fr hm hk hkm hs'
+    cases rc with
+    | false => simp only [Bool.false_eq_true, if_false]; exact ⟨g1, g2⟩
+    | true => simp only [if_true]; rw [widen_of_ok _ _ _ _ _ _ _ g1]; exact ⟨g1, g2⟩
+
+/-- … and its failures are exact.  Without widening: no reduced fraction within the bound `k`.  With widening
+    (`newk = k+1, 2(k+1), 4(k+1), … < f`): none within `k` nor within any of the bounds tried (the fuel
+    `widenFuel f` always reaches `newk ≥ f`). -/
+theorem rationalReconstruction_false (f m k : Int) (fr rc : Bool) (hm : 2 ≤ m) (hk : 1 ≤ k) (hkm : k ≤ m)
+    (hfalse : (rationalReconstruction f m k fr rc).ok = false) :
+    (∀ n d, ¬ Solution f m k n d) ∧
+    (rc = true → ∀ i : Nat, (k + 1) * 2 ^ i < f → (k + 1) * 2 ^ i ≤ m → ∀ n d, ¬ Solution f m ((k + 1) * 2 ^ i) n d) := by
+  constructor
+  · intro n d hs
+    have := (rationalReconstruction_complete f m k n d fr rc hm hk hkm hs).1
+    rw [hfalse] at this; cases this
+  · intro hrc i hi him n d hs
+    subst hrc
+    obtain ⟨x0, xm, xd⟩ := normResidue_facts f m (by omega)
+    unfold rationalReconstruction at hfalse
+    simp only [] at hfalse
+    split at hfalse
+    · cases hfalse
+    · simp only [if_true] at hfalse
+      obtain ⟨_, hall⟩ := widen_fail (normResidue f m) m f fr (widenFuel f) (k + 1) _ (by omega)
+        (by unfold widenFuel; omega) hfalse
+      have hk' : 1 ≤ (k + 1) * 2 ^ i := by
+        have : (0 : Int) < 2 ^ i := by positivity
+        have : (k + 1) * 1 ≤ (k + 1) * 2 ^ i := Int.mul_le_mul_of_nonneg_left (by omega) (by omega)
+        omega
+      have := (ratrecon_complete_general _ m _ n d fr hm hk' him (solution_congr f _ m _ n d xd hs)).1
+      rw [hall i hi] at this; cases this
+
+example : (rationalReconstruction 75 250 17 true false).ok = false := by decide
+
+/-- `mpz_sqrt` is used exactly: `⌊√m⌋² ≤ m < (⌊√m⌋+1)²`; consequently every `d ≤ ⌊√m⌋` satisfies the denominator bound
+    `d·k ≤ m` of the default-bound overloads -/
+theorem isqrt_exact (m : Int) (hm : 0 ≤ m) :
+    0 ≤ isqrt m ∧ isqrt m * isqrt m ≤ m ∧ m < (isqrt m + 1) * (isqrt m + 1) ∧
+      ∀ d, 0 ≤ d → d ≤ isqrt m → d * isqrt m ≤ m := by
+  unfold isqrt
+  have h3 : Nat.sqrt m.toNat * Nat.sqrt m.toNat ≤ m.toNat := Nat.sqrt_le _
+  have h4 : m.toNat < (Nat.sqrt m.toNat + 1) * (Nat.sqrt m.toNat + 1) := Nat.lt_succ_sqrt _
+  have h3' : ((Nat.sqrt m.toNat * Nat.sqrt m.toNat : Nat) : Int) ≤ (m.toNat : Int) := Int.ofNat_le.mpr h3
+  have h4' : ((m.toNat : Nat) : Int) < (((Nat.sqrt m.toNat + 1) * (Nat.sqrt m.toNat + 1) : Nat) : Int) := Int.ofNat_lt.mpr h4
+  simp only [Int.ofNat_eq_natCast]
+  push_cast at h3' h4'
+  have hmm : (m.toNat : Int) = m := Int.toNat_of_nonneg hm
+  rw [hmm] at h3' h4'
+  refine ⟨by omega, h3', h4', ?_⟩
+  intro d hd0 hd
+  have : d * (Nat.sqrt m.toNat : Int) ≤ (Nat.sqrt m.toNat : Int) * (Nat.sqrt m.toNat : Int) :=
+    Int.mul_le_mul_of_nonneg_right hd (by omega)
+  omega
+
+/-- 4-argument `RationalReconstruction` (bound `⌊√m⌋`, reduced, no widening): complete, exact on failure, unique inside `2kd ≤ m` -/
+theorem rationalReconstructionDefault_complete (f m n d : Int) (hm : 2 ≤ m) (hs : Solution f m (isqrt m) n d) :
+    (rationalReconstructionDefault f m).ok = true ∧
+      (rationalReconstructionDefault f m = ⟨true, n, d⟩ ∨ m < 2 * isqrt m * d) := by
+  obtain ⟨k1, k2, _⟩ := isqrt_facts m hm
+  exact ratrecon_complete_general f m (isqrt m) n d true hm k1 k2 hs
+
+theorem rationalReconstructionDefault_false (f m : Int) (hm : 2 ≤ m)
+    (hfalse : (rationalReconstructionDefault f m).ok = false) : ∀ n d, ¬ Solution f m (isqrt m) n d := by
+  obtain ⟨k1, k2, _⟩ := isqrt_facts m hm
+  exact ratrecon_false_no_solution f m (isqrt m) true hm k1 k2 hfalse
+
+example : Solution 145 1009 (isqrt 1009) 6 7 := (solutionB_iff _ _ _ _ _).mp (by decide +kernel)
+
+/-- 6-argument overload: numerator bound `k' = max(a_bound, x / b_bound)`; inside the uniqueness bound it returns the
+    reduced fraction iff its denominator is `≤ b_bound` -/
+theorem rationalReconstructionBounds_complete (x m ab bb n d : Int) (hm : 2 ≤ m) (hab : 1 ≤ ab)
+    (hkm : (if Int.tdiv x bb > ab then Int.tdiv x bb else ab) ≤ m)
+    (hs : Solution x m (if Int.tdiv x bb > ab then Int.tdiv x bb else ab) n d)
+    (h2 : 2 * (if Int.tdiv x bb > ab then Int.tdiv x bb else ab) * d ≤ m) :
+    rationalReconstructionBounds x m ab bb = ⟨decide (d ≤ bb), n, d⟩ := by
+  unfold rationalReconstructionBounds
+  simp only []
+  rw [ratrecon_unique x m _ n d true hm (by split <;> omega) hkm hs h2]
+  simp
+
+/-- `Rational(f,m,k,recurs)` / `QField::ratrecon(r,f,m,k,recurs)` (no success flag): inside the uniqueness bound the
+    object holds exactly the reduced fraction (the first call succeeds, so the widening loop does not run) -/
+theorem qfield_ratrecon_unique (f m k n d : Int) (rc : Bool) (hm : 2 ≤ m) (hk : 1 ≤ k) (hkm : k ≤ m)
+    (hs : Solution f m k n d) (h2 : 2 * k * d ≤ m) :
+    (qfieldRatrecon f m k rc).num = n ∧ (qfieldRatrecon f m k rc).den = d := by
+  have h := ratrecon_unique f m k n d true hm hk hkm hs h2
+  unfold qfieldRatrecon rationalCtor
+  simp only []
+  cases rc with
+  | false => simp only [Bool.false_eq_true, if_false]; rw [h]; exact ⟨rfl, rfl⟩
+  | true => simp only [if_true]; rw [h, widen_of_ok _ _ _ _ _ _ _ rfl]; exact ⟨rfl, rfl⟩
+
+/-! ### Polynomial reconstruction at full strength: the loop of givpoly1ratrecon.inl run on `Polynomial F`
+
+`mathlibOps F` interprets the Poly1Dom primitives called by the code (`degree`, `divmodin`, `maxpyin`, `gcd`,
+`leadcoef`, `divin`) by Mathlib's polynomial operations over an arbitrary field `F`; `pdeg` is Givaro's `Degree`
+(−1 for 0).  Quantifier: every field, every modulus with `deg M ≥ 1`, every residue `P` (also `deg P ≥ deg M`),
+every `0 ≤ dk < deg M`, every fuel `≥ deg P + 2` (the driver uses `|P| + |M| + 2`). -/
+section poly
+open Polynomial
+variable (F : Type) [Field F]
+
+/-- the laws assumed by `poly_ratrecon_sound_partial` and by the generic lemmas are satisfied (non-vacuity) -/
+example : EuclidLaws (mathlibOps F) := mathlibOps_laws F
+example : (0 : Int) ≤ 1 ∧ (1 : Int) < pdeg (X ^ 2 : F[X]) ∧ ¬ (pdeg (X : F[X]) = 0 ∧ (1 : Int) = 0) := by
+  have h : (X ^ 2 : F[X]) ≠ 0 := pow_ne_zero 2 X_ne_zero
+  refine ⟨by omega, ?_, by omega⟩
+  rw [pdeg_of_ne h, natDegree_X_pow]; norm_num
+
+/-- `Poly1Dom::ratrecon(N,D,P,M,dk)`: the loop terminates, reports success, and returns `N ≡ D·P (mod M)` with
+    `deg N ≤ dk`, `D ≠ 0`, `deg D ≤ deg M − dk` and `deg N + deg D < deg M`.
+    (`deg N ≤ dk`, not `< dk`: the loop's exit tests are `degN <= dk`; only the early exit uses `degU < dk`.) -/
+theorem poly_ratrecon_full (fuel : Nat) (p m : F[X]) (dk : Int) (hdk : 0 ≤ dk) (hdm : dk < pdeg m)
+    (hfuel : pdeg p + 2 ≤ fuel) (hcorner : ¬ (pdeg p = 0 ∧ dk = 0)) :
+    (polyRatreconFuel (mathlibOps F) fuel p m dk).ok = true ∧
+    m ∣ ((polyRatreconFuel (mathlibOps F) fuel p m dk).n - (polyRatreconFuel (mathlibOps F) fuel p m dk).d * p) ∧
+    pdeg (polyRatreconFuel (mathlibOps F) fuel p m dk).n ≤ dk ∧
+    (polyRatreconFuel (mathlibOps F) fuel p m dk).d ≠ 0 ∧
+    pdeg (polyRatreconFuel (mathlibOps F) fuel p m dk).d ≤ pdeg m - dk ∧
+    pdeg (polyRatreconFuel (mathlibOps F) fuel p m dk).n + pdeg (polyRatreconFuel (mathlibOps F) fuel p m dk).d < pdeg m := by
+  rcases polyRatreconFuel_full (mathlibOps_laws F) fuel p m dk hdk hdm hfuel with ⟨hok, ⟨s, hn, _⟩, h1, h2, h3, h4, _⟩ | ⟨a, b, _⟩
+  · exact ⟨hok, ⟨s, by rw [hn]; ring⟩, h1, h2, h3, h4⟩
+  · exact absurd ⟨a, b⟩ hcorner
+
+/-- the one in-range input class on which the loop version reports failure: a non-zero constant residue with `dk = 0`
+    (where `P/1` itself has degree `≤ dk`): `if ((degV < 0) || (degU == 0)) return false` -/
+theorem poly_ratrecon_corner (fuel : Nat) (p m : F[X]) (hdm : 0 < pdeg m) (hp : pdeg p = 0) :
+    (polyRatreconFuel (mathlibOps F) fuel p m 0).ok = false := by
+  have h1 : (mathlibOps F).deg p = 0 := hp
+  have h2 : ¬ ((mathlibOps F).deg p < 0 ∨ (mathlibOps F).deg m = 0) := by
+    have : (mathlibOps F).deg m = pdeg m := rfl
+    omega
+  unfold polyRatreconFuel
+  simp only [if_neg h2, if_pos (Or.inr h1 : (mathlibOps F).deg m < 0 ∨ (mathlibOps F).deg p = 0)]
+
+/-- the fuel is not a bound on the input: every sufficient amount gives the same result -/
+theorem poly_fuel_suffices (f1 f2 : Nat) (p m : F[X]) (dk : Int) (hdk : 0 ≤ dk) (hdm : dk < pdeg m)
+    (h1 : pdeg p + 2 ≤ f1) (h2 : pdeg p + 2 ≤ f2) :
+    polyRatreconFuel (mathlibOps F) f1 p m dk = polyRatreconFuel (mathlibOps F) f2 p m dk :=
+  polyRatreconFuel_fuel_indep (mathlibOps_laws F) f1 f2 p m dk hdk hdm h1 h2
+
+/-- minimality (hence uniqueness up to a common factor): every `(A,B)` with `A ≡ B·P (mod M)`, `deg A ≤ dk`,
+    `deg B < deg M − dk` (and `deg A < dk` in the boundary case `deg P = dk`) is `w·(N,D)` for the returned pair;
+    in particular `A·D = B·N`. -/
+theorem poly_ratrecon_minimal (fuel : Nat) (p m : F[X]) (dk : Int) (hdk : 0 ≤ dk) (hdm : dk < pdeg m)
+    (hfuel : pdeg p + 2 ≤ fuel) (hcorner : ¬ (pdeg p = 0 ∧ dk = 0))
+    (a b : F[X]) (hab : m ∣ (a - b * p)) (ha : pdeg a ≤ dk) (hb : pdeg b < pdeg m - dk)
+    (hst : pdeg a < dk ∨ pdeg p ≠ dk) :
+    ∃ w, a = w * (polyRatreconFuel (mathlibOps F) fuel p m dk).n ∧ b = w * (polyRatreconFuel (mathlibOps F) fuel p m dk).d := by
+  rcases polyRatreconFuel_full (mathlibOps_laws F) fuel p m dk hdk hdm hfuel with ⟨_, hfull⟩ | ⟨x, y, _⟩
+  · obtain ⟨t, ht⟩ := hab
+    exact polyFull_minimal (mathlibOps_laws F) p m dk _ _ hdk hdm hfull a b t (by
+      have : a = (a - b * p) + b * p := by ring
+      rw [this, ht]; ring) ha hb hst
+  · exact absurd ⟨x, y⟩ hcorner
+
+/-- `Poly1Dom::ratreconcheck` (= `ratrecon(…, forcereduce = true)`) answers exactly:
+    * `true` iff the row found by the loop is reduced (gcd(N,D) constant);
+    * when `true`, the returned pair satisfies the bounds, is reduced, `gcd(D,M) = 1` (so `N/D ≡ P` is a genuine
+      fraction modulo `M`) and `D` is monic;
+    * whenever *some* `A/B` with `gcd(B,M) = 1` within the bounds is congruent to `P`, the answer is `true` and
+      `(A,B) = w·(N,D)` — so `false` means no such fraction exists. -/
+theorem poly_ratreconcheck_exact (fuel : Nat) (p m : F[X]) (dk : Int) (hdk : 0 ≤ dk) (hdm : dk < pdeg m)
+    (hfuel : pdeg p + 2 ≤ fuel) (hcorner : ¬ (pdeg p = 0 ∧ dk = 0)) :
+    ((polyRatrecon6Fuel (mathlibOps F) fuel p m dk true).ok = true ↔
+        IsCoprime (polyRatreconFuel (mathlibOps F) fuel p m dk).n (polyRatreconFuel (mathlibOps F) fuel p m dk).d) ∧
+    ((polyRatrecon6Fuel (mathlibOps F) fuel p m dk true).ok = true →
+        m ∣ ((polyRatrecon6Fuel (mathlibOps F) fuel p m dk true).n - (polyRatrecon6Fuel (mathlibOps F) fuel p m dk true).d * p) ∧
+        pdeg (polyRatrecon6Fuel (mathlibOps F) fuel p m dk true).n ≤ dk ∧
+        pdeg (polyRatrecon6Fuel (mathlibOps F) fuel p m dk true).d ≤ pdeg m - dk ∧
+        IsCoprime (polyRatrecon6Fuel (mathlibOps F) fuel p m dk true).n (polyRatrecon6Fuel (mathlibOps F) fuel p m dk true).d ∧
+        IsCoprime (polyRatrecon6Fuel (mathlibOps F) fuel p m dk true).d m ∧
+        (polyRatrecon6Fuel (mathlibOps F) fuel p m dk true).d.Monic) ∧
+    (∀ a b : F[X], m ∣ (a - b * p) → pdeg a ≤ dk → pdeg b < pdeg m - dk → (pdeg a < dk ∨ pdeg p ≠ dk) → IsCoprime b m →
+        (polyRatrecon6Fuel (mathlibOps F) fuel p m dk true).ok = true ∧
+        ∃ w, a = w * (polyRatrecon6Fuel (mathlibOps F) fuel p m dk true).n ∧
+             b = w * (polyRatrecon6Fuel (mathlibOps F) fuel p m dk true).d) := by
+  obtain ⟨h1, h2, h3⟩ := polyCheck_full (mathlibOps_laws F) fuel p m dk hdk hdm hfuel hcorner
+  have he : polyRatrecon6Fuel (mathlibOps F) fuel p m dk true = polyRatreconCheckFuel (mathlibOps F) fuel p m dk := by
+    unfold polyRatrecon6Fuel; simp
+  rw [he]
+  refine ⟨h1, fun hok => ?_, fun a b hab ha hb hst hbm => ?_⟩
+  · obtain ⟨⟨⟨s, hn, _⟩, g1, _, g3, _, _⟩, c1, c2, c3⟩ := h2 hok
+    refine ⟨⟨s, by rw [hn]; ring⟩, g1, g3, c1, c2, ?_⟩
+    classical
+    exact of_decide_eq_true c3
+  · obtain ⟨t, ht⟩ := hab
+    exact h3 a b t (by
+      have : a = (a - b * p) + b * p := by ring
+      rw [this, ht]; ring) ha hb hst hbm
+
+end poly
+
+/-- boundary `deg P = dk` (excluded from the minimality/completeness statements above): the early exit tests `degU < dk`
+    while the loop exits test `degN <= dk`, so for P = X, M = X², dk = 1 over GF(2) the loop runs on to the row (0, X) and
+    `ratreconcheck` answers `false`, although X/1 has degree ≤ dk.  (List-polynomial instance run by the driver; the
+    compiled code agrees on this input.) -/
+example : (polyRatrecon 2 [0, 1] [0, 0, 1] 1 true).ok = false ∧ (polyRatrecon 2 [0, 1] [0, 0, 1] 1 false).n = [] := by
+  decide +kernel
 
 end Givaro.Props.C11
